@@ -598,9 +598,24 @@ fn make_span(meta: &'static Metadata<'static>, vals: &[Val], parent: &Parent) ->
 // ------------------------------------------------------------------------------------------------
 // the layer
 
+/// The configured timer.  "timer_faults": [{"<k>": pre, ..} per thread]: the k-th `format_time` call on that thread (one per
+/// emission that reaches a formatter with timestamps on) writes `pre` and returns Err -- a clock that cannot be read.
 struct FakeTime;
+thread_local! {
+    static TCTR: Cell<usize> = Cell::new(0);
+    static TFAIL: RefCell<HashMap<usize, String>> = RefCell::new(HashMap::new());
+}
 impl FormatTime for FakeTime {
     fn format_time(&self, w: &mut FmtWriter<'_>) -> fmt::Result {
+        let k = TCTR.with(|c| {
+            let k = c.get();
+            c.set(k + 1);
+            k
+        });
+        if let Some(pre) = TFAIL.with(|f| f.borrow().get(&k).cloned()) {
+            w.write_str(&pre)?;
+            return Err(fmt::Error);
+        }
         w.write_str("TIME")
     }
 }
@@ -831,6 +846,11 @@ fn run_case(case: &J) -> J {
         })
         .unwrap_or_default();
     let faults = Arc::new(faults);
+    let tfaults: Vec<HashMap<usize, String>> = case["timer_faults"]
+        .as_array()
+        .map(|a| a.iter().map(|th| th.as_object().map(|o| o.iter().map(|(k, v)| (k.parse().expect("call index"), v.as_str().unwrap().to_string())).collect()).unwrap_or_default()).collect())
+        .unwrap_or_default();
+    let tfaults = Arc::new(tfaults);
     let lay = layer(case["format"].as_str().unwrap(), &opts, writer);
     let dispatch = Dispatch::new(Registry::default().with(lay));
     let callsites: Arc<Vec<&'static Metadata<'static>>> = Arc::new(case["callsites"].as_array().unwrap().iter().map(mk_callsite).collect());
@@ -852,12 +872,15 @@ fn run_case(case: &J) -> J {
         let (dispatch, callsites, direct, barrier, caught, tids, faults, tids_plain) =
             (dispatch.clone(), callsites.clone(), direct.clone(), barrier.clone(), caught.clone(), tids.clone(), faults.clone(), tids_plain.clone());
         let races = races.clone();
+        let tfaults = tfaults.clone();
         // fixed-width names: FmtThreadName pads to the longest name seen by the process
         let h = std::thread::Builder::new()
             .name(format!("wk{:02}", t))
             .spawn(move || {
                 TIDX.with(|c| c.set(t as i64));
                 MKCTR.with(|c| c.set(0));
+                TCTR.with(|c| c.set(0));
+                TFAIL.with(|f| *f.borrow_mut() = tfaults.get(t).cloned().unwrap_or_default());
                 PLAN.with(|p| *p.borrow_mut() = faults.get(t).cloned().unwrap_or_default());
                 tids.lock().unwrap()[t] = format!("{:0>2?}", std::thread::current().id());
                 tids_plain.lock().unwrap()[t] = format!("{:?}", std::thread::current().id());
